@@ -444,6 +444,88 @@ func cfEnumerate(tier string) []cfCase {
 	return out
 }
 
+
+// cfOpenCase: the earliest point at which the Modify stream can fail — it cannot be opened
+// (Connect returns the error). The client is then torn down by two calls in a row (Close or
+// Reset, every combination), each of which has to return; after a Reset it is connected to a
+// working stub and has to carry one exchange like a fresh client.
+func cfOpenCase(class string, seq []string) *CaseSpec {
+	name := fmt.Sprintf("clientfault/open/%s/%s", class, strings.Join(seq, "-"))
+	run := func(keep []int) (*Trace, error) {
+		cfMu.Lock()
+		defer cfMu.Unlock()
+		client.BusyLoopDelay = time.Millisecond
+		t := &Trace{}
+		t.Add("begin %s", name)
+		base := clientGoroutines()
+		c, err := client.New(client.PersistEntries(), client.ElectedPrimaryClient(&spb.Uint128{Low: 1}))
+		if err != nil {
+			return t, err
+		}
+		stub := &stubClient{modifyErr: cfErr(class)}
+		c.UseStub(stub)
+		ctx, cancel := context.WithCancel(context.Background())
+		defer cancel()
+		cerr := c.Connect(ctx)
+		outcome := "ok"
+		for _, step := range seq {
+			step := step
+			res := make(chan string, 1)
+			go func() {
+				defer func() {
+					if r := recover(); r != nil {
+						res <- fmt.Sprintf("panic(%v)", r)
+					}
+				}()
+				if step == "close" {
+					c.Close()
+				} else {
+					c.Reset()
+				}
+				res <- "ok"
+			}()
+			select {
+			case o := <-res:
+				if o != "ok" && outcome == "ok" {
+					outcome = step + ":" + o
+				}
+			case <-time.After(wd(3 * time.Second)):
+				if outcome == "ok" {
+					outcome = step + ":hang"
+				}
+			}
+			if outcome != "ok" {
+				break
+			}
+		}
+		left := 0
+		if outcome == "ok" {
+			deadline := time.Now().Add(2 * time.Second)
+			for time.Now().Before(deadline) {
+				if left = clientGoroutines() - base; left <= 0 {
+					left = 0
+					break
+				}
+				time.Sleep(time.Millisecond)
+			}
+		}
+		t.Add("cf.open class=%s seq=%s connecterr=%s outcome=%s goroutines=%d", class, strings.Join(seq, "-"), B(cerr != nil), S(outcome), left)
+		t.Add("end")
+		return t, nil
+	}
+	return &CaseSpec{Name: name, N: 1, Run: run, Inputs: func() []string { return []string{name} }}
+}
+
+func cfOpenCorpus() []*CaseSpec {
+	out := []*CaseSpec{}
+	for _, class := range []string{"unavailable", "canceled"} {
+		for _, seq := range [][]string{{"close"}, {"reset"}, {"close", "close"}, {"close", "reset"}, {"reset", "close"}, {"reset", "reset"}} {
+			out = append(out, cfOpenCase(class, seq))
+		}
+	}
+	return out
+}
+
 func init() {
 	modes["clientfault"] = &Mode{
 		Name: "clientfault",
@@ -455,7 +537,8 @@ func init() {
 			return cfaultCase(cs[idx])
 		},
 		Count:    func(tier string) int { return len(cfEnumerate(tier)) },
-		Required: []string{"cf.send", "cf.recv", "cf.close", "cf.reset", "cf.ok"},
+		Corpus:   cfOpenCorpus,
+		Required: []string{"cf.open", "cf.send", "cf.recv", "cf.close", "cf.reset", "cf.ok"},
 		Serial:   true,
 		Atomic:   true,
 	}
